@@ -96,10 +96,28 @@ EqProg(ks1, w1, ks2, w2, re) ==
           \o Build(Q_, ks2, w2) \o (IF re THEN Reinsert(Q_, ks2, w2) ELSE <<>>) \o <<EqObs>>, <<>>, <<>>)
 EqProgs == {EqProg(ks1, w1, ks2, w2, re) : ks1 \in SortedSeqs, w1 \in {0, 2}, ks2 \in SeqsOf(Ks3), w2 \in {0, 2, 3}, re \in BOOLEAN}
 
+\* a range over a map in a function that calls itself from the loop body (iterations left after the call returns),
+\* the inner activation changing the map: every activation visits the keys the map had when IT started that are
+\* still present
+RecSig == Sig(<<T_num>>, <<>>, T_none)
+DV == EVar("d", T_num)
+RecProg(initKeys, innerOps) ==
+  [Program(<<SInfer("m", EMap(initKeys, [i \in DOMAIN initKeys |-> ENum(I(i))])), SCall(ECallU("walk", RecSig, <<ENum(I(0))>>)), Obs>>,
+           <<FuncDef("walk", <<Param("d", T_num)>>, <<>>, T_none,
+                     <<SFor("k", "map", <<M>>,
+                            <<Pr(<<DV, KV, ECallB("len", <<M>>)>>),
+                              SIf(<<EBin("<", DV, ENum(I(2)))>>, << innerOps \o <<SCall(ECallU("walk", RecSig, <<EBin("+", DV, ENum(I(1)))>>))>> >>, <<>>)>>)>>)>>, <<>>) EXCEPT !.fl = TRUE]
+RecProgs == { RecProg(ks, ops) : ks \in { <<Key(97), Key(98), Key(99)>>, <<Key(97), Key(98), Key(99), Key(100)>> },
+                                  ops \in { <<>>, <<SIf(<<EBin("==", KV, EStr(Key(97)))>>, << <<SCall(ECallB("del", <<M, EStr(Key(98))>>))>> >>, <<>>)>>,
+                                            <<SCall(ECallB("del", <<M, KV>>))>>,
+                                            <<SIf(<<EBin("==", DV, ENum(I(0)))>>, << <<SAsg(EDot(M, Key(122)), ENum(I(26)))>> >>, <<>>)>>,
+                                            <<SCall(ECallB("del", <<M, KV>>)), SAsg(EIdx(M, KV), ENum(I(5)))>> } }
+
 Exh == UNION {{<<len, h>> : h \in 0..(NOps ^ len - 1)} : len \in 1..ExhLen}
 Smp == {<<c \div 200000000, c % 200000000>> : c \in Sample}
 FamCases == {MkCase("FamMap", "hist", Prog(init, p[1], p[2])) : init \in 1..3, p \in Exh \cup Smp}
             \cup {MkCase("FamMap", "literal-twice", p) : p \in LitTwice}
             \cup {MkCase("FamMap", "equality", p) : p \in EqProgs}
+            \cup {MkCase("FamMap", "recursion", [p EXCEPT !.main = <<SInfer("m", p.main[1].x), SInfer("n", M)>> \o Tail(p.main)]) : p \in RecProgs}
 FamInit == InitWith(FamCases)
 =============================================================================
